@@ -5,7 +5,8 @@ JUDGE = "Judge_C08"
 RULE = ("TLC enumerates 12 grouping key lists (6 keys, 6 pairs) x 5 aggregate lists x 3 filters x ORDER BY none / each key / "
         "each integer-valued aggregate x asc/desc over world W7; one run each; Judge_C08 checks the bijection between rows and "
         "distinct key tuples of the matching entries, every cell against Agg!AggOk on exactly that group, and the row order. "
-        "Non-trivial = at least two groups and some group with more than one entry.")
+        "Non-trivial = at least two groups and some group with more than one entry. "
+        "The same scenarios are run over pseudo-random trees (WorldRnd; quick: 1500 sampled over 2 trees, thorough: 6 trees); ORDER BY lists of two fields and grouping keys that are not selected are included.")
 ASSUMPTIONS = ["lstat values as ground truth", "keys are always selected (ORDER BY on unselected keys is left open)"]
 POOL = 8
 
